@@ -353,6 +353,27 @@ def _pure_memo_cg(cg, module: str, target: ast.Subscript, value: ast.expr) -> bo
     return not any((q[4:] if q.startswith("new:") else q) in READS for q in reach)
 
 
+def _pure_memo_via_local(cg, m, target: ast.Subscript, value: ast.expr) -> bool:
+    """self.memo[k] = v where every assignment of the local v in the method is either a read of the same memo
+    (v = self.memo.get(k) / self.memo[k]) or a pure function of the key (v = re.compile(k, ...))."""
+    if not isinstance(value, ast.Name):
+        return False
+    memo_attr = target.value.attr if isinstance(target.value, ast.Attribute) else None
+    defs = [a.value for a in ast.walk(m.node) if isinstance(a, ast.Assign) and any(isinstance(t_, ast.Name) and t_.id == value.id for t_ in a.targets)]
+    if not defs:
+        return False
+    pure = 0
+    for d in defs:
+        reads_memo = any(isinstance(x, ast.Attribute) and x.attr == memo_attr and isinstance(x.value, ast.Name) and x.value.id == "self" for x in ast.walk(d))
+        if reads_memo:
+            continue
+        if _pure_memo_cg(cg, m.module.name, target, d):
+            pure += 1
+            continue
+        return False
+    return pure >= 1
+
+
 def _pure_memo(target: ast.Subscript, value: ast.expr) -> bool:
     """self.memo[k] = re.compile(k, <constants>): the stored value is a function of its key alone, so it can never be stale."""
     if not (isinstance(value, ast.Call) and dotted(value.func) in S6_PURE and isinstance(target.slice, ast.Name) and value.args):
@@ -448,7 +469,7 @@ def _s6(run, ctx, L, S6):
                     if isinstance(n, ast.Assign):
                         for t in n.targets:
                             if isinstance(t, ast.Subscript) and isinstance(t.value, ast.Attribute) and isinstance(t.value.value, ast.Name) and t.value.value.id == "self":
-                                if _pure_memo_cg(cg, m.module.name, t, n.value):
+                                if _pure_memo_cg(cg, m.module.name, t, n.value) or _pure_memo_via_local(cg, m, t, n.value):
                                     continue
                                 acc.setdefault(t.value.attr, f"{m.name}:{n.lineno} [k]=")
                             if isinstance(t, ast.Attribute) and isinstance(t.value, ast.Name) and t.value.id == "self":
@@ -538,14 +559,19 @@ def _written_attrs(repo, r, starts):
 
 
 def _reset_attrs(repo, r):
-    f = r.finalize
+    return _must_resets(repo, r, r.finalize, 3, (r.finalize.qual,), top=True)
+
+
+def _must_resets(repo, r, f, depth, stack, top=False):
+    """Attributes re-bound / cleared on every (non-early-empty-return) path of f, following calls to the rule's own
+    methods (`self._reset_state()`): what such a helper resets on all of its paths counts for the calling path."""
     paths = func_paths(f)
     if paths is None:
         return set(), False
     common = None
     for p in paths:
         t = p[-1]
-        if t[0] == "return" and isinstance(t[1].value, (ast.List, ast.Tuple)) and not t[1].value.elts:
+        if top and t[0] == "return" and isinstance(t[1].value, (ast.List, ast.Tuple)) and not t[1].value.elts:
             continue  # early empty return
         Z = set()
         for ev in p:
@@ -560,6 +586,11 @@ def _reset_attrs(repo, r):
                         q = _self_path(repo, r, n.func.value)
                         if q:
                             Z.add(q)
+                    if depth > 0 and isinstance(n, ast.Call) and isinstance(n.func, ast.Attribute) and isinstance(n.func.value, ast.Name) and n.func.value.id == "self":
+                        g = repo.find_method(r.qual, n.func.attr)
+                        if g is not None and g.qual not in stack:
+                            sub, _ok = _must_resets(repo, r, g, depth - 1, stack + (g.qual,))
+                            Z |= sub
         common = Z if common is None else (common & Z)
     return common or set(), True
 
